@@ -198,10 +198,15 @@ class World:
     def status_table(self, **kw):
         lines = self.status(**kw)
         table = {}
+        names = set(self.wf.targets)
+        words = ("shouldrun", "submitted", "running", "completed", "failed", "cancelled")
         for line in lines:
-            parts = line.split()
-            if len(parts) >= 3:
-                table[parts[1]] = parts[2]
+            # a row names one target and one status word; column order, symbols and further columns are free
+            parts = [p.strip(",;:|()[]") for p in str(line).split()]
+            nm = [p for p in parts if p in names]
+            st = [p.lower() for p in parts if p.lower() in words]
+            if len(nm) == 1 and len(st) >= 1:
+                table[nm[0]] = st[0]
         return table
 
     def clean(self, targets=(), all_=False, force=False):
